@@ -163,6 +163,7 @@ def run(ctx, impl_only=False):
             pairs.append((base, t2))
     # inputs that share objects (one list at several positions of t1; t2 a shallow copy or a sub-object of t1)
     pairs += FAM.alias_pairs(ctx, max(12, n // 12))
+    pairs += FAM.rich_pairs(ctx, n // 4)
     reqs = []
     for (t1, t2) in pairs:
         s1, s2 = copy.deepcopy(t1), copy.deepcopy(t2)
@@ -202,7 +203,12 @@ def run(ctx, impl_only=False):
     def f15():
         d = DeepDiff([0, 'a', 'a', 2, '', 0, 2], [0, 'a', 'a', 'a', '', 2, 0, 2], verbose_level=2)
         return all(e['old_value'] != e['new_value'] for e in d.get('values_changed', {}).values())
-    for fid, fn in {'F15': f15}.items():
+    def f42():
+        import datetime as _dt
+        b = _dt.datetime(2021, 5, 6)
+        d = DeepDiff([_dt.datetime(2020, 1, 1, 2, 3)], [b])
+        return d['values_changed']['root[0]']['new_value'] == b
+    for fid, fn in {'F15': f15, 'F42': f42}.items():
         ctx.evaluations += 1
         ok = fn()
         if fid in findings:
